@@ -146,8 +146,8 @@ pub fn run(ctx: &Ctx) {
          distinct tuples, all in A. Non-trivial = |A| > 1 and the program has >= 2 rule heads. Distinct = distinct (program, EDB).",
     );
     ctx.assume("R1 validates the unlimited answer; limited runs that return Err are counted, not judged");
-    ctx.run_part_with("iql_engine_limits", ctx.cases(3000, 80_000), || case_strategy(opts()), |c, o| check(ctx, c, o, false), Some(&crate::common::gen::shrink_case));
-    ctx.run_part_with("storage_limits", ctx.cases(300, 8_000), || case_strategy(opts()), |c, o| check(ctx, c, o, true), Some(&crate::common::gen::shrink_case));
+    ctx.run_part_with("iql_engine_limits", ctx.cases(8000, 120_000), || case_strategy(opts()), |c, o| check(ctx, c, o, false), Some(&crate::common::gen::shrink_case));
+    ctx.run_part_with("storage_limits", ctx.cases(800, 12_000), || case_strategy(opts()), |c, o| check(ctx, c, o, true), Some(&crate::common::gen::shrink_case));
 }
 
 pub fn replay(ctx: &Ctx, part: &str, case: &J) -> Option<Result<CheckResult, String>> {
